@@ -193,8 +193,12 @@ class PythonCryptoEndpoint(CryptoEndpoint, EndpointListener):
 
         try:
             if next_relay.rendezvous_relay:
+                this_relay = self.relays.get(next_relay.circuit_id)
+                if this_relay is None:
+                    # The two entries of a relay are removed independently (e.g., for inactivity in one direction).
+                    self.logger.warning("Dropping cell (the other half of rendezvous relay %d is gone)", cell.circuit_id)
+                    return
                 self.decrypt_cell(cell, FORWARD, next_relay.hop)
-                this_relay = self.relays[next_relay.circuit_id]
                 self.encrypt_cell(cell, BACKWARD, this_relay.hop)
                 cell.relay_early = False
             else:
